@@ -134,20 +134,6 @@ func (r *requestContext) rewriteRequest(targetURL *url.URL) func(req *httputil.P
 		proxyReq.Out.Header.Del("X-Forwarded-Uri")
 		proxyReq.Out.Header.Del("X-Forwarded-Path")
 
-		uh := r.UpstreamHeaders()
-		for k := range uh {
-			proxyReq.Out.Header.Set(k, uh.Get(k))
-		}
-
-		if host := uh.Get("Host"); len(host) != 0 {
-			proxyReq.Out.Host = host
-			proxyReq.Out.Header.Del("Host")
-		}
-
-		for k, v := range r.UpstreamCookies() {
-			proxyReq.Out.AddCookie(&http.Cookie{Name: k, Value: v})
-		}
-
 		// set headers, which might be relevant for the upstream, if these are present in the original request
 		// and have not been dropped
 		forwardedHost := proxyReq.In.Header.Get("X-Forwarded-Host")
@@ -177,6 +163,21 @@ func (r *requestContext) rewriteRequest(targetURL *url.URL) func(req *httputil.P
 					return fmt.Sprintf("%s, for=%s;host=%s;proto=%s",
 						forwarded, clientIP, proxyReq.In.Host, proto)
 				}))
+		}
+
+		// headers created by the pipeline win over everything else
+		uh := r.UpstreamHeaders()
+		for k := range uh {
+			proxyReq.Out.Header.Set(k, uh.Get(k))
+		}
+
+		if host := uh.Get("Host"); len(host) != 0 {
+			proxyReq.Out.Host = host
+			proxyReq.Out.Header.Del("Host")
+		}
+
+		for k, v := range r.UpstreamCookies() {
+			proxyReq.Out.AddCookie(&http.Cookie{Name: k, Value: v})
 		}
 	}
 }
